@@ -11,6 +11,8 @@ Python glue of pgradd/GroupAdd/Scheme.py under contract, RDKit and the RING matc
 The end-to-end comparison with an independent reading of the scheme files is the bounded stand-in."""
 import ast
 
+import copy
+
 import z3
 
 from pyvc import source, loops
@@ -308,6 +310,13 @@ def u_assign_descriptor(I):
     return {'inputs': {'atoms': atoms}}
 
 
+def FRAME_REMAPS(o, before):
+    """frame: answering a query does not write the scheme's remap table (C15: computing does not alter library data; C14: the table stays as loaded)"""
+    now = o.fields.get('remaps')
+    same = isinstance(now, dict) and list(now.keys()) == list(before.keys()) and all([tuple(x) for x in now[k_]] == [tuple(x) for x in before[k_]] for k_ in before)
+    return ('frame: the remap table of the scheme is not modified by a decomposition', z3.BoolVal(bool(same)))
+
+
 def u_assign_descriptor_multi(I):
     """accumulation over entries: several entries of the three kinds may carry the SAME name (BensonGA: Cis, AlkaneGauche ...);
     the count of a name is the sum over its entries; smiles-based entries look at the clean molecule, smarts-based at the
@@ -348,6 +357,7 @@ def u_assign_descriptor_multi(I):
                   'smiles_based_descriptors': [{'name': names[2], 'smarts': patt[2], 'useChirality': chir[0]}],
                   'smarts_based_descriptors': [{'name': names[3], 'smarts': patt[3], 'useChirality': chir[1]}],
                   'remaps': remaps}, 'param')
+    remaps0 = copy.deepcopy(remaps)
     out = run_target(I, SCHEME, 'GroupAdditivityScheme._AssignDescriptor', [mol, clean], self_obj=o)
     want = {}
     for nme, c in zip(names, counts):
@@ -370,7 +380,8 @@ def u_assign_descriptor_multi(I):
                  z3.BoolVal(got == final)),
                 ('smiles-based entries are matched on the clean molecule, smarts-based ones on the hydrogen-complete molecule, each with its own useChirality',
                  z3.BoolVal(sorted((c[1], c[2].fields['which'], c[3]) for c in sub) == [(2, 'clean', chir[0]), (3, 'with hydrogens', chir[1])])),
-                ('RING-based entries are matched on the hydrogen-complete molecule', z3.BoolVal(all(c[2] is mol for c in calls if c[0] == 'ring')))]
+                ('RING-based entries are matched on the hydrogen-complete molecule', z3.BoolVal(all(c[2] is mol for c in calls if c[0] == 'ring'))),
+                FRAME_REMAPS(o, remaps0)]
     check_outcome(I, out, raises={}, returns=posts)
     return {'inputs': {'names': names, 'counts': counts}}
 
@@ -420,6 +431,7 @@ def u_assign_group(I):
     made = []
     W_.ctor_hooks['Group'] = lambda I_, c, a, k: (made.append((a[1], list(a[2]))), Obj(c, {'name': spec_name(a[1], list(a[2])), 'scheme': a[0]}, 'fresh'))[1]
     o = Obj(cls, {'remaps': remaps}, 'param')
+    remaps0 = copy.deepcopy(remaps)
     out = run_target(I, SCHEME, 'GroupAdditivityScheme._AssignGroup', [Obj(BuiltinClass('GMol'), {}, 'param')], self_obj=o)
     raw = {}
     for i in gname:
@@ -440,7 +452,8 @@ def u_assign_group(I):
                             sorted((c_, sorted(p_)) for c_, p_ in made) == sorted((cen[i], sorted(per[j] for j in nbrs[i] if per[j] != 'none')) for i in gname))),
                 ('the counts are the per-atom groups with the remap rules applied as ONE linear substitution (every name replaced once by the rule declared for it, '
                  'whatever the order in which the names were met)', z3.BoolVal({k_: v_ for k_, v_ in r.items() if v_ != 0} == {k_: v_ for k_, v_ in want.items() if v_ != 0})),
-                ('an atom without a named centre is marked as belonging to no group', z3.BoolVal(all(props[i].get('Group_name') == 'none' for i in range(3) if cen[i] == 'none')))]
+                ('an atom without a named centre is marked as belonging to no group', z3.BoolVal(all(props[i].get('Group_name') == 'none' for i in range(3) if cen[i] == 'none'))),
+                FRAME_REMAPS(o, remaps0)]
     check_outcome(I, out, raises={}, returns=posts)
     return {'inputs': {'centre': cen, 'peripheral': per, 'remaps': remaps}}
 
